@@ -461,12 +461,15 @@ func (g *Gen) randomAdjust(who int, stray float64) *JAdjust {
 			}
 			used[k] = true
 			it := Item{kind, k}
-			switch g.R.Intn(6) {
+			switch g.R.Intn(7) {
 			case 0: // lone removal
 				RemoveAdj(a, it, false)
 			case 1: // remove then set
 				RemoveAdj(a, it, false)
 				SetAdj(a, it, who, n)
+			case 2: // set, then the removal marker later in the list: the set still wins
+				SetAdj(a, it, who, n)
+				RemoveAdj(a, it, false)
 			default:
 				SetAdj(a, it, who, n)
 			}
